@@ -76,6 +76,7 @@ func (e Entry) String() string {
 
 // Pub is one event handed to EventStream.Publish (observed at the tap, i.e. "published").
 type Pub struct {
+	At        int64 // virtual time
 	Seq       int
 	Type      string
 	Ref       string // the ActorRef field of lifecycle events
@@ -215,7 +216,7 @@ func NewWorld(x *vexp.X, opts ...vivid.ActorSystemOption) *World {
 		ev := args[2]
 		t, d := describe(ev)
 		w.seq++
-		p := Pub{Seq: w.seq, Type: strings.TrimPrefix(t, "Event:"), Publisher: ctx.Ref().GetPath(), Detail: d, Event: ev}
+		p := Pub{At: vrt.Now(), Seq: w.seq, Type: strings.TrimPrefix(t, "Event:"), Publisher: ctx.Ref().GetPath(), Detail: d, Event: ev}
 		if f := reflect.ValueOf(ev).FieldByName("ActorRef"); f.IsValid() && f.Kind() == reflect.Interface && !f.IsNil() {
 			p.Ref = f.Interface().(vivid.ActorRef).GetPath()
 		}
